@@ -455,10 +455,24 @@ mod ops_exec;
 #[path = "../gen_ops.rs"]
 mod gen_ops;
 
+/// `Bit` <-> bool / integer conversions (src/bit.rs)
+fn bitconv(a: &[&str]) -> String {
+    let (w, x) = parse_uint(a[0]);
+    macro_rules! one { ($u:ty) => {{
+        let b: Bit = Bit::from(x as $u);
+        let back: $u = <$u>::from(b);
+        let as_bool: bool = bool::from(b);
+        let from_bool: Bit = Bit::from(as_bool);
+        format!("ok {} n:{} {} {}", tok_bit(b), back as u128, tok_bool(as_bool), tok_bit(from_bool))
+    }}}
+    match w { 8 => one!(u8), 16 => one!(u16), 32 => one!(u32), 64 => one!(u64), 128 => one!(u128), 65 => one!(usize), _ => panic!("width") }
+}
+
 fn exec(t: &[&str]) -> String {
     let op = t[0];
     let a = &t[2..];
     match op {
+        "bitconv" => bitconv(a),
         "add" | "sub" | "mul" | "div" | "rem" | "and" | "or" | "xor" | "shl" | "shr" | "not" => ops_exec::exec(t),
         "zeros" | "ones" | "repeat" | "with_capacity" | "from_binary" | "from_hex" | "from_bytes" | "read" | "collect" => {
             for_types!(d1!(a[0], ctor, (op, &a[1..])))
